@@ -651,7 +651,7 @@ def build10(m):
             'forall_str(lambda k: implies(k in root.footnotes and not (k in old(root.footnotes)), '
             'exists(lambda j: norm_label(matches[j][0]) == k, 0, _k0)))',
         ])},
-        prop=['C07'], options={'tier': 'thorough'})
+        prop=['C07'])
     c.is_static = True
     m.add(c)
 
